@@ -51,36 +51,6 @@ func verifSame(a, b []string) bool {
 	return true
 }
 
-// verifRegexFindIndex is the engine-side model of (*regexp.Regexp).FindIndex on symbolic
-// data for the two record-separator regexes used below (leftmost-longest).  It is used by
-// the engine only; the native replay runs the real regexp package.
-func verifRegexFindIndex(pattern string, data []byte) []int {
-	switch pattern {
-	case "X+":
-		for i := 0; i < len(data); i++ {
-			if data[i] == 'X' {
-				j := i + 1
-				for j < len(data) && data[j] == 'X' {
-					j++
-				}
-				return []int{i, j}
-			}
-		}
-		return nil
-	case "b|abc":
-		for i := 0; i < len(data); i++ {
-			if data[i] == 'a' && i+2 < len(data) && data[i+1] == 'b' && data[i+2] == 'c' {
-				return []int{i, i + 3}
-			}
-			if data[i] == 'b' {
-				return []int{i, i + 1}
-			}
-		}
-		return nil
-	}
-	panic("verifRegexFindIndex: no model for pattern " + pattern)
-}
-
 func verifInterpRS(rs string) *interp {
 	p := &interp{recordSep: rs}
 	if len(rs) > 1 {
